@@ -3,7 +3,7 @@ from vcommon import *
 import scen_common
 
 PID = "C06"
-PROP_V = ["Props/Properties_C06.v", "Props/Properties_C06w.v"]
+PROP_V = ["Props/Properties_C06.v", "Props/Properties_C06w.v", "Props/Properties_C06x.v"]
 GEN_MODULES = ["Consts", "Sites"]
 FLOW_FILES = ['mu.c', 'mu_wait.c']
 REPLAY_HINT = "VRT_SEED=<seed> [VRT_MODE=<m>] _work/h/muwait_mix"
@@ -16,10 +16,13 @@ PARTIAL = ["the clause 'a release by nsync_mu_unlock_without_wakeup may leave as
            "(C06_RingInv_reachable, C06_rings_reachable: rings are runs of adjacent WAIT_CONDITION_EQ-equivalent waiters -- runs, not maximal runs: merges are only "
            "attempted at enqueue and removal boundaries), the scan never panics (C06_no_scan_panic), and MU_ALL_FALSE is sound: whenever it is set and nobody "
            "owns the write lock every queued waiter's condition is false in the current protected state (C06_allfalse_sound = the full statement C06_allfalse_full)",
-           "C06_no_stuck_full (no reachable quiescent world with the mutex free and a queued waiter whose condition is true) is NOT proved: proved are "
-           "C06_runnable_clears_allfalse and C06_no_stuck_partial (a lost wake-up world would have MU_ALL_FALSE clear); missing is the designated-waker invariant "
-           "of C02 (MuProof3's HInv) redone for MuWaitModel; 'every waiter whose condition became true returns' is decided by the stuck detector and the "
-           "quiescent-state observer (muwait_mix VRT_OBS)"]
+           "C06 no-lost-wake-up is PROVED on the model of the repaired code (Properties_C06x: C06_no_stuck = C06_no_stuck_full, C06_handoff, "
+           "C06_sleeper_faces_holder): no reachable quiescent world has the mutex free and a queued nsync_mu_wait caller (reader or writer mode, deadline, cancel, "
+           "timed-out re-acquisition, multi-round scan) whose condition is true.  The statement was FALSE of the code as found: F13 (5890963) and F14 (b3597cd) were "
+           "found by this proof and reproduced on the real library (scenarios rdwait_stuck, longwait_stuck; docs/F13_witness.v, docs/F14_witness.v).  Quiescence is "
+           "'no step changes the world'; that an agent which can move eventually does so (fair scheduling) is outside the model and is the scenario oracles' job "
+           "(stuck / livelock detector, quiescent-state observers); nsync_mu_unlock_without_wakeup is excluded by hypothesis.  Internal panics (Crash 2/5/6/7/10) are "
+           "proved unreachable (C06_no_internal_panic); Crash 1/4/8/9 are client-contract violations"]
 TRUSTED_BASE = ["Model/MuWaitModel.v control skeleton (mu.c + mu_wait.c incl. the multi-round scan with condition evaluation, ring repair, the "
                 "timeout re-acquisition path): hand-written, validated by lock-step replay with queue AND same_condition-ring snapshots (replay/muwait_replay.ml)"]
 
